@@ -365,8 +365,14 @@ def canon_refs(dump):
 
 
 def canon_rel(dump):
+    """answers of the OUTGOING relationship queries (even pages).  The inverse queries are dumped but not compared: the pinned
+    incoming scan (finding F03a of C03) answers differently depending on the numeric order of the predicates' internal ids, which
+    follows Go map order at assignment time and so differs between two runs of the same history - crash or no crash.  The raw
+    keys of BOTH index families are compared (canon_refs), which is the stronger index-level statement."""
     ns = dump.get("ns") or {}
-    return [sorted((sc.expand(r["start"], ns), sc.expand(r["pred"], ns), sc.expand(r["id"], ns)) for r in page) for page in (dump.get("rel") or [])]
+    pages = dump.get("rel") or []
+    return [sorted((sc.expand(r["start"], ns), sc.expand(r["pred"], ns), sc.expand(r["id"], ns)) for r in page)
+            for i, page in enumerate(pages) if i % 2 == 0]
 
 
 def canon_gets(dump):
